@@ -208,8 +208,16 @@ Proof.
   apply Inv_andthen; [apply Inv_sn_send_owned, H|intros s1 H1; apply IH, H1].
 Qed.
 
+(* finish_obj deletes the by-id slot only if it still holds g: split on that test *)
+Local Ltac fin_by_id g :=
+  try (match goal with |- context [match ?m !! ?k with Some g' => if g' =? g then _ else _ | None => _ end] =>
+         let g' := fresh "g'" in destruct (m !! k) as [g'|]; [destruct (g' =? g)|] end).
+
 Lemma Inv_finish_obj cfg s g : Inv cfg s -> Inv cfg (finish_obj s g).
-Proof. intros H. unfold finish_obj. destruct (gw_objs s !! g) as [t|]; [|exact H]. destruct t; inv_leaf. Qed.
+Proof.
+  intros H. unfold finish_obj. destruct (gw_objs s !! g) as [t|]; [|exact H].
+  destruct t; fin_by_id g; inv_leaf.
+Qed.
 
 Ltac inv_walk :=
   repeat first
@@ -293,7 +301,7 @@ Proof. intros [HA [HT [HO _]]]. repeat split; assumption. Qed.
 Lemma Inv3_finish_obj s g : Inv3 s -> Inv3 (finish_obj s g).
 Proof.
   intros [HA [HT HO]]. unfold finish_obj. destruct (gw_objs s !! g) as [t|]; [|repeat split; assumption].
-  destruct t; unfold Inv3; cbn; (split; [|split]); eauto with inv.
+  destruct t; fin_by_id g; unfold Inv3; cbn; (split; [|split]); eauto with inv.
 Qed.
 
 Lemma Inv_set_conn cfg s g mq a :
@@ -332,7 +340,7 @@ Proof.
       cbn. destruct (gw_connect s); [apply Inv3_finish_obj|]; exact H0. }
     assert (Hseen : gw_auth_seen s1 = None).
     { subst s1. cbn. destruct (gw_connect s); [|reflexivity].
-      unfold finish_obj. cbn. destruct (gw_objs s !! n) as [[]|]; reflexivity. }
+      unfold finish_obj. cbn. destruct (gw_objs s !! n) as [[]|]; fin_by_id n; reflexivity. }
     clearbody s1. destruct H1 as [HA [HT HO]].
     unfold connect_start. destruct (auth_enabled cfg) eqn:Hau.
     + cbn [st_of ok fst]. apply Inv_set_conn.
@@ -584,8 +592,9 @@ Proof.
     cbv zeta. destruct Hok as [Hd Hs].
     match goal with |- context [arm ?s0 (TmRetry g) ?d] => set (s1 := arm s0 (TmRetry g) d) end.
     assert (H1 : Inv cfg s1).
-    { subst s1. unfold arm, set_obj. inv_split. unfold Inv. cbn. (split; [|split; [|split]]); eauto 8 with inv.
-      apply IO_insert; [|exact HO]. split; [|exact Hs]. destruct data; cbn in *; [rewrite bp_type_set_dup|]; exact Hd. }
+    { subst s1. unfold arm, set_obj. inv_split. unfold Inv.
+      destruct data; cbn; (split; [|split; [|split]]); eauto 8 with inv;
+        (apply IO_insert; [|exact HO]); (split; [|exact Hs]); cbn in *; try rewrite bp_type_set_dup; exact Hd. }
     clearbody s1. destruct data as [p|k m].
     + pose proof (Inv_sn_send_owned cfg s1 (Some g) (set_dup p) H1) as Hs1.
       destruct (sn_send_owned s1 (Some g) (set_dup p)) as [[s2 o] [|c]]; cbn [st_of fst ok] in *; [exact Hs1|].
@@ -819,7 +828,7 @@ Lemma acc_sn_send_owned s o p : gw_accepted (st_of (sn_send_owned s o p)) = gw_a
 Proof. unfold sn_send_owned. destruct (gw_st s); try destruct (len (pack p) <=? MaxPacketLen); reflexivity. Qed.
 
 Lemma acc_finish_obj s g : gw_accepted (finish_obj s g) = gw_accepted s.
-Proof. unfold finish_obj. destruct (gw_objs s !! g) as [[]|]; reflexivity. Qed.
+Proof. unfold finish_obj. destruct (gw_objs s !! g) as [[]|]; fin_by_id g; reflexivity. Qed.
 
 Lemma acc_fire cfg s k : gw_accepted (st_of (fire cfg s k)) = gw_accepted s.
 Proof.
@@ -1533,7 +1542,7 @@ Proof.
     cbn [andthen ok stop finish_r]. unfold begin_end.
     match goal with |- context [gw_st (finish_obj ?s0 g)] =>
       assert (Hf : gw_st (finish_obj s0 g) = Asleep)
-        by (unfold finish_obj; destruct (gw_objs s0 !! g) as [[]|]; cbn; exact Hst) end.
+        by (unfold finish_obj; destruct (gw_objs s0 !! g) as [[]|]; fin_by_id g; cbn; exact Hst) end.
     rewrite Hf. reflexivity. }
   rewrite E. left. reflexivity.
 Qed.
